@@ -230,7 +230,11 @@ Proof. exact to_density_f_frame. Qed.
 (* [F] never narrower, for the computed widths: finite target <= 1; whenever the computed cap is not below the
    width in the C++ comparison (!(cap < w), which includes a NaN cap), the new width is >= the old one.
    Rounding cannot produce oldWidth - 1: the computed factor is >= 1 (monotone rounding of a quotient > 1),
-   w * factor rounds to >= w, missingArea never becomes negative *)
+   w * factor rounds to >= w, missingArea never becomes negative.
+   NOTE: the float -> int conversion of the model (Btrunc) goes into ideal Z, so there is NO hypothesis "the new width is
+   below 2^31" here (nor in c18f_factor_never_narrower): for inputs inside these hypotheses whose result reaches 2^31 the
+   compiled code converts out of range (undefined behaviour; observed: width 2^30 with cap 2 -> -2147483648) and the clause
+   is false for the C++ while true for the model.  The claim of ./check C18 is restricted to results below 2^31. *)
 Theorem c18f_density_never_narrower : forall (t m mew : f64) c c' b,
   is_finite t = true -> B2R t <= 1 -> int_sizes (e_cells c) ->
   (movable_area (e_cells c) < 2 ^ 63)%Z -> (row_placement_area_f m c < 2 ^ 63)%Z ->
